@@ -470,19 +470,19 @@ Qed.
 Definition same_walks (ent loc : bool) (roots : list cid) : list walk :=
   map (fun r => mkWalk r ent loc SNever) roots.
 
-Lemma run_walks_shared : forall g tk ent loc roots fuel V,
+Lemma run_walks_shared : forall fl g tk ent loc roots fuel V,
   dedups tk = true ->
-  let o := mkOpts true (key_of tk) loc ent in
+  let o := mkOpts true (key_of fl tk) loc ent in
   exists outs n V',
-    run_walks g tk fuel (same_walks ent loc roots) V = Some (outs, V') /\
+    run_walks fl g tk fuel (same_walks ent loc roots) V = Some (outs, V') /\
     Forall (fun x => snd x = RNil) outs /\
     run n g o roots V = Some (concat (map fst outs), V').
 Proof.
-  intros g tk ent loc roots fuel V Hd o. revert V.
+  intros fl g tk ent loc roots fuel V Hd o. revert V.
   induction roots as [|r roots IH]; intros V.
   - exists [], 1, V. cbn. repeat split. constructor.
   - cbn [same_walks map run_walks w_root w_stop]. rewrite Hd.
-    assert (Ho : opts_of tk (mkWalk r ent loc SNever) = o).
+    assert (Ho : opts_of fl tk (mkWalk r ent loc SNever) = o).
     { unfold opts_of, o. cbn [w_loc w_entity]. rewrite Hd. reflexivity. }
     rewrite Ho. rewrite loop_never by reflexivity.
     destruct (run_fuel_of g o [r] V) as [[e1 V1] Hr1]. rewrite Hr1. cbn [lift3].
@@ -535,104 +535,6 @@ Proof.
       cbn [emit_goes_on app].
       destruct (IH g o k (S n) _ _ _ _ Hd Hr) as (V' & r & HV). rewrite HV.
       replace (k - n) with (S (k - S n)) by lia. cbn [firstn]. do 2 eexists; reflexivity.
-Qed.
-
-(** ---------- the repaired walker (finding C13-1) ---------- *)
-Fixpoint dedupk (key : cid -> cid) (VE e : list cid) : list cid * list cid :=
-  match e with
-  | [] => ([], VE)
-  | x :: r =>
-      if mem (key x) VE then dedupk key VE r
-      else let (e', VE') := dedupk key (key x :: VE) r in (x :: e', VE')
-  end.
-
-Definition okcid (o : wopts) : wopts := mkOpts (o_dedup o) kcid (o_loc o) (o_entity o).
-
-Lemma loop2_run : forall f g o st VT VE,
-  loop2 f g o st VT VE =
-  match run f g (okcid o) st VT with
-  | None => None
-  | Some (e, VT') => let (e', VE') := dedupk (o_key o) VE e in Some (e', VT', VE')
-  end.
-Proof.
-  induction f as [|f IH]; intros g o st VT VE; [reflexivity|].
-  cbn [loop2 run]. destruct st as [|c st']; [reflexivity|].
-  change (o_key (okcid o) c) with c.
-  change (o_loc (okcid o)) with (o_loc o). change (o_entity (okcid o)) with (o_entity o).
-  destruct (mem c VT); [apply IH|].
-  destruct (expand g (o_loc o) (o_entity o) c) as [ks|]; [|apply IH].
-  unfold pre. destruct (n_ident (lookup g c)) eqn:Hi; cbn [orb].
-  - rewrite IH. destruct (run f g (okcid o) (ks ++ st') (c :: VT)) as [[e VT']|]; reflexivity.
-  - destruct (mem (o_key o c) VE) eqn:Hm.
-    + rewrite IH. destruct (run f g (okcid o) (ks ++ st') (c :: VT)) as [[e VT']|]; [|reflexivity].
-      cbn [app dedupk]. rewrite Hm. reflexivity.
-    + rewrite IH. destruct (run f g (okcid o) (ks ++ st') (c :: VT)) as [[e VT']|]; [|reflexivity].
-      cbn [app dedupk]. rewrite Hm.
-      destruct (dedupk (o_key o) (o_key o c :: VE) e) as [e' VE']. reflexivity.
-Qed.
-
-Lemma dedupk_props : forall key e VE,
-  let e' := fst (dedupk key VE e) in
-  incl e' e /\
-  NoDup (map key e') /\
-  (forall x, In x e' -> ~ In (key x) VE) /\
-  (forall x, In x e -> In (key x) (map key e') \/ In (key x) VE).
-Proof.
-  intros key. induction e as [|x r IH]; intros VE; cbn [dedupk].
-  - cbn [fst]. split; [apply incl_refl|]. split; [constructor|]. split; intros y [].
-  - destruct (mem (key x) VE) eqn:Hm.
-    + destruct (IH VE) as (Hi & Hn & Hd & Hc). split; [|split; [|split]].
-      * intros y Hy. right. apply Hi, Hy.
-      * exact Hn.
-      * exact Hd.
-      * intros y [<-|Hy]; [right; apply mem_In, Hm | apply Hc, Hy].
-    + destruct (IH (key x :: VE)) as (Hi & Hn & Hd & Hc).
-      destruct (dedupk key (key x :: VE) r) as [e' VE'] eqn:Hdk. cbn [fst] in *.
-      apply mem_false_In in Hm. split; [|split; [|split]].
-      * intros y [<-|Hy]; [left; reflexivity | right; apply Hi, Hy].
-      * cbn [map]. constructor; [|exact Hn].
-        intros Hin. apply in_map_iff in Hin. destruct Hin as (y & Heq & Hy).
-        apply (Hd y Hy). left. symmetry. exact Heq.
-      * intros y [<-|Hy]; [exact Hm|]. intros Hin. apply (Hd y Hy). right. exact Hin.
-      * intros y [<-|Hy]; [left; left; reflexivity|].
-        destruct (Hc y Hy) as [H|[H|H]].
-        -- left. right. exact H.
-        -- left. left. exact H.
-        -- right. exact H.
-Qed.
-
-Lemma respects_okcid : forall g o roots, respects g (okcid o) roots.
-Proof.
-  intros g o roots a b _ _ H. cbn [okcid o_key] in H. unfold kcid in H. subst b. repeat split.
-Qed.
-
-Lemma reach_okcid : forall g o roots x, reach g (okcid o) roots x <-> reach g o roots x.
-Proof.
-  intros g o roots x. split; intros H.
-  - induction H as [c Hc | p c Hp IH Hc]; [apply reach_root, Hc | eapply reach_step; [exact IH | exact Hc]].
-  - induction H as [c Hc | p c Hp IH Hc]; [apply reach_root, Hc | eapply reach_step; [exact IH | exact Hc]].
-Qed.
-
-Lemma loop2_correct : forall g o roots,
-  exists e VT VE,
-    loop2 (fuel_of g roots) g o roots [] [] = Some (e, VT, VE) /\
-    NoDup (map (o_key o) e) /\
-    (forall x, In x e -> reach g o roots x /\ is_open g o x = true /\ n_ident (lookup g x) = false) /\
-    (forall x, reach g o roots x -> is_open g o x = true -> n_ident (lookup g x) = false ->
-               In (o_key o x) (map (o_key o) e)).
-Proof.
-  intros g o roots.
-  destruct (run_eq_dfs g (okcid o) roots []) as (e0 & VT & Hr & Hd).
-  rewrite loop2_run, Hr.
-  pose proof (dedupk_props (o_key o) e0 []) as (Hi & Hn & _ & Hc).
-  destruct (dedupk (o_key o) [] e0) as [e VE] eqn:Hdk. cbn [fst] in *.
-  exists e, VT, VE. split; [reflexivity|]. split; [exact Hn|]. split.
-  - intros x Hx. destruct (dfs_sound g (okcid o) _ _ _ _ _ Hd x (Hi x Hx)) as (Hre & Ho & Hid).
-    split; [apply reach_okcid, Hre|]. split; [exact Ho | exact Hid].
-  - intros x Hre Ho Hid.
-    destruct (dfs_complete g (okcid o) _ _ _ _ (respects_okcid g o roots) Hd x (proj2 (reach_okcid g o roots x) Hre)) as (_ & Hem).
-    specialize (Hem Ho Hid). cbn [okcid o_key] in Hem. unfold kcid in Hem. rewrite map_id in Hem.
-    destruct (Hc x Hem) as [H|[]]. exact H.
 Qed.
 
 (** ---------- entity-root walks, spelled out on the raw graph ---------- *)
@@ -805,4 +707,25 @@ Proof.
   rewrite Hk, cid_eqb_refl in Hb.
   apply andb_true_iff in Hb. destruct Hb as [Hb H3]. apply andb_true_iff in Hb. destruct Hb as [H1 H2].
   apply eqb_prop in H1. apply eqb_prop in H2. apply list_eqb_cid_eq in H3. repeat split; assumption.
+Qed.
+
+(** ---------- the repaired tracker key ---------- *)
+Lemma kcm_kmh : forall a b, kcm a = kcm b -> kmh a = kmh b.
+Proof.
+  intros [a1 a2] [b1 b2] H. unfold kcm, kmh in *. cbn [fst snd] in *. inversion H. reflexivity.
+Qed.
+
+(** keyed by codec and multihash: every reachable, available, non-identity CID has
+    its MULTIHASH announced *)
+Lemma announces_all : forall g o roots e V' r,
+  o_dedup o = true -> o_key o = kcm -> respects g o roots ->
+  loop (fuel_of g roots) g o SNever 0 roots [] = Some (e, V', r) ->
+  forall x, reach g o roots x -> is_open g o x = true -> n_ident (lookup g x) = false ->
+            In (kmh x) (map kmh e).
+Proof.
+  intros g o roots e V' r Hd Hk Hresp H x Hre Ho Hi.
+  assert (Hin : In (o_key o x) (map (o_key o) e)).
+  { apply (emits_iff _ _ _ _ _ _ Hd Hresp H). exists x. auto. }
+  rewrite Hk in Hin. apply in_map_iff in Hin. destruct Hin as (y & Hy & Hye).
+  apply in_map_iff. exists y. split; [apply kcm_kmh, Hy | exact Hye].
 Qed.
